@@ -503,8 +503,8 @@ func verifH_SrvNewStream() {
 	}
 	d, hasDeadline := verifDeadline(inv.ctx)
 	if hdrShape >= 2 {
-		wf, want, zero := refTimeout(tmo)
-		if wf && !zero {
+		wf, want, _ := refTimeout(tmo)
+		if wf {
 			verifCover("deadline")
 			verifAssert(hasDeadline && verifSameDuration(d, want), "C18.handler-deadline-from-header")
 		}
